@@ -446,6 +446,7 @@ pub fn explain(case: &SynthCase, gate: &GateModule, mm: Mismatch) -> Outcome {
                     "signed-constant-not-sign-extended",
                     "signed-comparison-in-unsigned-context",
                     "select-of-signed-variable-is-signed",
+                    "fill-literal-ones-not-filled",
                     "multi-bit-condition-tests-bit-0",
                     "width-cast-ignored",
                     "ashr-in-unsigned-context",
@@ -841,7 +842,7 @@ pub fn run(ctx: &Ctx) {
     }
     ctx.run_payloads("recorded", |p| recorded_on_own_thread(p, replay_recorded));
     project_types(ctx);
-    let n = std::env::var("C19_CASES").ok().and_then(|s| s.parse::<usize>().ok()).unwrap_or(ctx.scale(400, 30_000));
+    let n = std::env::var("C19_CASES").ok().and_then(|s| s.parse::<usize>().ok()).unwrap_or(ctx.scale(500, 30_000));
     ctx.run("cases", CaseCfg::cases(n).choices(60_000).timeout_s(600), |d| discover("C19", one_case(d)));
     ctx.assume("the gate evaluator implements the doc comments of crates/synthesizer/src/ir.rs; what they leave open (RAM words never written, state before the first reset, out-of-range RAM addresses, read/write collision on a registered read) is X and not compared");
     ctx.assume("the RTL side is veryl's simulator with the default Config, driven as vdesign's driver does (inputs, one clock edge with the reset asserted around it on reset steps, sample); where vdesign's IEEE 1800 reference says the RTL simulator is wrong and the netlist right, the case is counted as skipped (simulator matter)");
